@@ -371,8 +371,13 @@ def run_check(prop, tier, seed):
         batches = [("debug", cases)]
         if rel_ok:
             batches.append(("release", cases))
+        if tier == "thorough":
+            # the thorough tier also looks at four more seeds (quick counts each, debug profile)
+            for extra in range(1, 5):
+                batches.append(("debug-seed+%d" % extra, cfg["cases"](seed + extra, "quick")))
+            cov["seeds"] = [seed] + [seed + e_ for e_ in range(1, 5)]
         for profile, cs in batches:
-            impl, mod, iprob, mprob = runner.run_both(cs, "%s.%s" % (prop, profile), release=(profile == "release"),
+            impl, mod, iprob, mprob = runner.run_both(cs, "%s.%s" % (prop, profile.replace("+", "p")), release=(profile == "release"),
                                                       model=cfg.get("model", True), timeout=cfg.get("timeout", 900))
             for c in cs:
                 it = impl.get(c["id"])
@@ -390,7 +395,12 @@ def run_check(prop, tier, seed):
                     dist[k] = dist.get(k, 0) + 1
                 # a case flagged no_model has no model input (C16: corrupted documents have no tree):
                 # it is judged by the intrinsic oracles only
-                if cfg.get("model", True) and not c.get("no_model"):
+                # the model's generator oracle is rebuilt from the implementation's draw log and is quadratic in the
+                # number of draws since the last (re)seed: runs with more than 20 000 draws are judged by the oracles only
+                long_rng = sum(len(r_.split()) for t_, r_ in (it or []) if t_ == "RNG") > 40000
+                if long_rng:
+                    dist["skipped:draw-log-too-long"] = dist.get("skipped:draw-log-too-long", 0) + 1
+                if cfg.get("model", True) and not c.get("no_model") and not long_rng:
                     d = compare_case(c, it, mt, cfg["tags"])
                     if d is not None:
                         mismatches.append((c, profile, d))
